@@ -50,7 +50,7 @@ def cases(draw, exclude: frozenset = frozenset()):
 		ops = [['run', m, 0, 1, 0, '0'], ['edit', m, vis[0], 2, 0, '0'], ['run', m, 0, 1, 0, '0'], ['edit_old_mtime', m, vis[1], 3, rnd.randint(0, 5), '0'], ['run', m, 0, 1, 0, '0']] + ops[:4]
 	ops.append(['run', mods[0], 0, 1, 0, '0'])
 	# in half of the histories the grammar file is newer than every source file (the tool was installed after the sources were written)
-	return {'graph': gname, 'ops': ops, 'grammar_newer': rnd.random() < 0.5}
+	return {'graph': gname, 'ops': ops, 'grammar_newer': rnd.random() < 0.5, 'root_deps': rnd.random() < 0.35}
 
 
 class OpenSpy:
@@ -87,7 +87,8 @@ def judge(scratch: str, case: dict) -> tuple[list[tuple[str, str]], dict]:
 	from vf import env
 	from vf import project as P
 	graph = P.GRAPHS[case['graph']]
-	pkg = {m: 'src' for m in graph}
+	# modules that others import may lie directly in the project root (imported by an undotted module path)
+	pkg = {m: ('' if case.get('root_deps') and P.dependents(graph, m) else 'src') for m in graph}
 	work = tempfile.mkdtemp(prefix='c05-', dir=scratch)
 	info = {'warm_after_visible_edit': False, 'truncation_read': False, 'runs': 0, 'mtime_recurrence': False}
 	fails: list[tuple[str, str]] = []
@@ -98,7 +99,7 @@ def judge(scratch: str, case: dict) -> tuple[list[tuple[str, str]], dict]:
 		os.makedirs(os.path.join(proj, 'data'))
 		shutil.copy(os.path.join(env.REPO, 'data/grammar.lark'), os.path.join(proj, 'data/grammar.lark'))
 		for cache in (True, False):
-			P.write_config(proj, ['out/'], ['src/*.py'], cache_enabled=cache)
+			P.write_config(proj, ['out/'], ['src/*.py'] + (['*.py'] if case.get('root_deps') else []), cache_enabled=cache)
 			# the project-local grammar copy may be touched without touching /repo
 			path = os.path.join(proj, 'config.yml' if cache else 'config_nocache.yml')
 			text = open(path).read().replace(os.path.join(env.REPO, 'data/grammar.lark'), 'data/grammar.lark')
@@ -110,7 +111,7 @@ def judge(scratch: str, case: dict) -> tuple[list[tuple[str, str]], dict]:
 			trace.append('grammar newer than all sources')
 		state = {m: (0, 1) for m in graph}
 		for m in graph:
-			P.bump_write(os.path.join(proj, 'src', m + '.py'), P.module_source(m, pkg, 0, 1, graph))
+			P.bump_write(os.path.join(proj, pkg[m], m + '.py'), P.module_source(m, pkg, 0, 1, graph))
 		ran_once = False
 		mtimes_at_runs: dict = {x: [] for x in graph}
 		visible_edit_since_run: set = set()
@@ -136,7 +137,7 @@ def judge(scratch: str, case: dict) -> tuple[list[tuple[str, str]], dict]:
 				break
 			if kind in ('edit', 'edit_old_mtime'):
 				state[m] = (visible, invisible)
-				path_m = os.path.join(proj, 'src', m + '.py')
+				path_m = os.path.join(proj, pkg[m], m + '.py')
 				P.bump_write(path_m, P.module_source(m, pkg, visible, invisible, graph))
 				# the new content gets an mtime the file already had at an earlier cached run (a timestamp-preserving restore), but not the one of the latest run
 				olds = [t for t in mtimes_at_runs[m][:-1] if t != mtimes_at_runs[m][-1]] if kind == 'edit_old_mtime' and mtimes_at_runs[m] else []
@@ -176,7 +177,7 @@ def judge(scratch: str, case: dict) -> tuple[list[tuple[str, str]], dict]:
 				info['runs'] += 1
 				if cache:
 					for x in graph:
-						mtimes_at_runs[x].append(os.stat(os.path.join(proj, 'src', x + '.py')).st_mtime_ns)
+						mtimes_at_runs[x].append(os.stat(os.path.join(proj, pkg[x], x + '.py')).st_mtime_ns)
 				trace.append('run' if cache else 'run(cache disabled)')
 				expect = cold_outputs()
 				cache_dir = os.path.join(proj, '.cache')
@@ -238,7 +239,7 @@ def shard(ctx: core.Ctx) -> None:
 		fails, info = run_judge(ctx.scratch, case)
 		ctx.extra['runs'] = ctx.extra.get('runs', 0) + info['runs']
 		ctx.case([case['graph'], case['ops']], info['warm_after_visible_edit'] or info['truncation_read'], sample={'graph': case['graph'], 'history': [f'{o[0]}({o[1]},{o[2]},{o[3]})' if o[0] == 'edit' else o[0] for o in case['ops']]},
-			labels=['history', case['graph']] + (['grammar-newer-than-sources'] if case.get('grammar_newer') else []) + [k for k in ('warm_after_visible_edit', 'truncation_read', 'mtime_recurrence') if info[k]])
+			labels=['history', case['graph']] + (['grammar-newer-than-sources'] if case.get('grammar_newer') else []) + (['dependencies-in-project-root'] if case.get('root_deps') else []) + [k for k in ('warm_after_visible_edit', 'truncation_read', 'mtime_recurrence') if info[k]])
 		for sig, detail in fails:
 			ctx.fail(sig, detail, case)
 
